@@ -254,6 +254,18 @@ func (f *fields) dict() map[string]value {
 	return f.d
 }
 
+// names returns the names of the dictionary in sorted order. Visiting the
+// settings in a fixed order makes the outcome of a call (which one of several
+// errors is reported) independent of the runtime's map enumeration order.
+func (f *fields) names() []string {
+	names := make([]string, 0, len(f.d))
+	for k := range f.d {
+		names = append(names, k)
+	}
+	sort.Strings(names)
+	return names
+}
+
 func (f *fields) array() []value {
 	return f.a
 }
